@@ -110,6 +110,7 @@ type Exec struct {
 	nReturns      int
 	replay        *ReplayInfo
 	loopHead      *State
+	scopePos      token.Pos
 	inLoopHavoc   bool
 	litOrd        map[*ast.FuncLit]int
 	written       map[string]bool // heap keys written on objects the caller can see
@@ -324,8 +325,7 @@ func (x *Exec) stmt(s ast.Stmt, st *State, cs []*ctl) []*State {
 		x.fail(s.Pos(), "outside subset: %T", s)
 		return nil
 	case *ast.TypeSwitchStmt:
-		x.fail(s.Pos(), "outside subset: type switch")
-		return nil
+		return x.typeSwitch(s, st, cs)
 	}
 	x.fail(s.Pos(), "unsupported statement %T", s)
 	return nil
@@ -501,6 +501,111 @@ func (x *Exec) switchStmt(s *ast.SwitchStmt, st *State, cs []*ctl, label string)
 	return x.mergeMany(outs)
 }
 
+var dyntypeFn = &FuncDecl{Name: "dyntype", Params: []*Sort{IntSort}, Ret: IntSort}
+
+// typeID: a stable positive identity of a concrete type (dynamic type tags).
+func typeID(t types.Type) *Term {
+	return funcID("type:" + types.TypeString(t, nil))
+}
+
+// typeSwitch: the dynamic type of an interface value is dyntype(id), an
+// uninterpreted function of the value's identity; a case with one concrete
+// type binds the same identity at that type (an interface holding a pointer
+// is that pointer). Cases naming interface types are undetermined.
+func (x *Exec) typeSwitch(s *ast.TypeSwitchStmt, st *State, cs []*ctl) []*State {
+	if s.Init != nil {
+		r := x.stmt(s.Init, st, cs)
+		if len(r) != 1 {
+			return nil
+		}
+		st = r[0]
+	}
+	var subj ast.Expr
+	switch a := s.Assign.(type) {
+	case *ast.AssignStmt:
+		if len(a.Rhs) == 1 {
+			if ta, ok := unparen(a.Rhs[0]).(*ast.TypeAssertExpr); ok {
+				subj = ta.X
+			}
+		}
+	case *ast.ExprStmt:
+		if ta, ok := unparen(a.X).(*ast.TypeAssertExpr); ok {
+			subj = ta.X
+		}
+	}
+	if subj == nil {
+		x.fail(s.Pos(), "unsupported type switch form")
+		return nil
+	}
+	v := x.expr(subj, st)
+	sc, ok := v.(Sc)
+	if !ok || sc.T.S.Kind != SInt {
+		x.fail(s.Pos(), "type switch on an unmodelled value")
+		return nil
+	}
+	dt := App(dyntypeFn, sc.T)
+	var breaks []*State
+	frame := &ctl{breaks: &breaks}
+	ncs := append(append([]*ctl(nil), cs...), frame)
+	var outs []*State
+	rest := st
+	var deflt *ast.CaseClause
+	bind := func(cc *ast.CaseClause, sa *State) {
+		o, _ := x.info.Implicits[cc].(*types.Var)
+		if o == nil {
+			return
+		}
+		val := Value(sc)
+		if len(cc.List) == 1 {
+			if _, isNil := x.info.TypeOf(cc.List[0]).(*types.Basic); !isNil {
+				t := o.Type()
+				if s2, ok := x.scalarSort(t); !ok || !s2.Eq(sc.T.S) {
+					// a non-pointer concrete type: its value is not modelled
+					val = x.fresh(sa, t, o.Name())
+					x.abstr["type switch binds a value of type "+types.TypeString(t, nil)+" (unmodelled)"] = true
+				}
+			}
+		}
+		sa.vars[o] = val
+	}
+	for _, cl := range s.Body.List {
+		cc := cl.(*ast.CaseClause)
+		if cc.List == nil {
+			deflt = cc
+			continue
+		}
+		var alts []*Term
+		for _, e := range cc.List {
+			t := x.info.TypeOf(e)
+			if b, ok := t.(*types.Basic); ok && b.Kind() == types.UntypedNil {
+				alts = append(alts, Eq(sc.T, IntC(0)))
+				continue
+			}
+			if types.IsInterface(t) {
+				alts = append(alts, x.freshTerm("tyis", BoolSort))
+				x.abstr["type switch case on interface type "+types.TypeString(t, nil)] = true
+				continue
+			}
+			alts = append(alts, And(Neq(sc.T, IntC(0)), Eq(dt, typeID(t))))
+		}
+		c := Or(alts...)
+		sa := rest.clone()
+		sa.add(c)
+		bind(cc, sa)
+		outs = append(outs, x.caseBody(cc, sa, ncs)...)
+		rest = rest.clone()
+		rest.add(Not(c))
+	}
+	if deflt != nil {
+		bind(deflt, rest)
+		outs = append(outs, x.caseBody(deflt, rest, ncs)...)
+	} else {
+		outs = append(outs, rest)
+	}
+	outs = append(outs, breaks...)
+	return x.mergeMany(outs)
+}
+
 func (x *Exec) caseBody(cc *ast.CaseClause, st *State, cs []*ctl) []*State {
 	for _, b := range cc.Body {
 		if br, ok := b.(*ast.BranchStmt); ok && br.Tok == token.FALLTHROUGH {
@@ -650,6 +755,14 @@ func (x *Exec) invariantLoop(s ast.Stmt, ord int, spec *LoopSpec, st *State, cs 
 	condf func(*State) *Term, body func(*State, []*ctl) []*State, post func(*State, []*ctl) []*State,
 	extraHavoc func(*State)) []*State {
 	pfx := fmt.Sprintf("loop%d", ord)
+	savedScope := x.scopePos
+	switch l := s.(type) {
+	case *ast.ForStmt:
+		x.scopePos = l.Body.Lbrace + 1
+	case *ast.RangeStmt:
+		x.scopePos = l.Body.Lbrace + 1
+	}
+	defer func() { x.scopePos = savedScope }()
 	// loop lets: evaluated in the pre-state
 	for _, l := range spec.Lets {
 		v, _ := x.cexpr(l.C.Expr, x.cctx(st, l.C))
@@ -1060,14 +1173,64 @@ func (x *Exec) markCallEffects(m *modSet, call *ast.CallExpr) {
 		return // conversion
 	}
 	fn := x.calleeOf(call)
-	if fn == nil {
+	if fn == nil && !(x.c != nil && x.c.Opts["frame"] == "args") {
 		m.heapAll = true
 		return
 	}
-	if x.isPureBuiltinFunc(fn) {
+	if fn != nil && x.isPureBuiltinFunc(fn) {
 		return
 	}
-	c := x.eng.contractFor(fn)
+	var c *Contract
+	if fn != nil {
+		c = x.eng.contractFor(fn)
+	}
+	if c == nil && x.c != nil && x.c.Opts["frame"] == "args" {
+		// same assumption as at the call itself: only the objects passed
+		// (receiver, pointer arguments, one level) and passed slices change
+		mark := func(t types.Type) {
+			if t == nil {
+				return
+			}
+			pt, ok := t.Underlying().(*types.Pointer)
+			if !ok {
+				return
+			}
+			su, ok := pt.Elem().Underlying().(*types.Struct)
+			if !ok {
+				return
+			}
+			for i := 0; i < su.NumFields(); i++ {
+				m.heapKeys[typeKey(pt.Elem())+"."+su.Field(i).Name()] = true
+			}
+		}
+		if sel, ok := unparen(call.Fun).(*ast.SelectorExpr); ok {
+			if s := x.info.Selections[sel]; s != nil {
+				mark(s.Recv())
+			}
+		}
+		for _, a := range call.Args {
+			mark(x.info.TypeOf(a))
+			if _, ok := x.info.TypeOf(a).Underlying().(*types.Slice); ok {
+				x.markElemWrite(m, a)
+			}
+			if lit, ok := unparen(a).(*ast.FuncLit); ok {
+				sub := x.modifiedIn(lit.Body)
+				for k := range sub.heapKeys {
+					m.heapKeys[k] = true
+				}
+				for k := range sub.vars {
+					m.vars[k] = true
+				}
+				for k := range sub.elems {
+					m.elems[k] = true
+				}
+				if sub.heapAll {
+					m.heapAll = true
+				}
+			}
+		}
+		return
+	}
 	if c == nil {
 		m.heapAll = true
 		// slices passed to an unknown callee may be written
